@@ -1,40 +1,65 @@
 /-
 C09 — `JsonClean`: the clean-up the JSON encoder's bytes go through.
 pkg/pbutil/output.go rewrites the bytes protojson produced with
-    (?m)^(\s*"[^"]*": ) <space>   →   $1
-i.e. at the start of a line: optional white space, a quoted run without `"`, colon, space, and one
-more space, which is dropped.  `clean` implements exactly that matcher (leftmost, non-overlapping;
-every sub-pattern is deterministic: `\s*` is followed by `"`, `[^"]*` by `"`).
+    (?m)^(\s*"(?:[^"\\]|\\.)*": ) <space>   →   $1
+i.e. at the start of a line: optional white space, a whole JSON string (escapes included), colon,
+space, and one more space, which is dropped.  `clean` implements exactly that matcher (leftmost,
+non-overlapping; every sub-pattern is deterministic: `\s*` is followed by `"`, the string body
+ends at the first unescaped `"`).  `cleanOld` is the matcher of the pattern before the repair
+(`"[^"]*"`), kept to state what was wrong with it.
 Core Lean only.
 -/
 namespace SyslModel.JsonClean
 
-/-- RE2 `\s`: tab, newline, form feed, carriage return, space (vertical tab is not included) -/
+/-- RE2 `\s`: tab, newline, form feed, carriage return, space -/
 def isSpace (c : Char) : Bool := c = ' ' || c = '\t' || c = '\n' || c = '\r' || c = '\x0c'
+
+/-- the body of a JSON string: up to the first unescaped quote; `none` if there is none.
+    `\\.` of the pattern does not match a newline (no `s` flag). -/
+def strBody : List Char → Option (List Char × List Char)
+  | [] => none
+  | '"' :: rest => some ([], rest)
+  | '\\' :: c :: rest =>
+    if c = '\n' then none else
+    match strBody rest with
+    | some (b, r) => some ('\\' :: c :: b, r)
+    | none => none
+  | '\\' :: [] => none
+  | c :: rest =>
+    match strBody rest with
+    | some (b, r) => some (c :: b, r)
+    | none => none
 
 /-- try the pattern at the head of `s`: what is kept of the match, and what follows it -/
 def tryMatch (s : List Char) : Option (List Char × List Char) :=
-  let ws := s.takeWhile isSpace
   match s.dropWhile isSpace with
   | '"' :: r =>
-    let k := r.takeWhile (· ≠ '"')
+    match strBody r with
+    | some (k, ':' :: ' ' :: ' ' :: rest) => some (s.takeWhile isSpace ++ '"' :: k ++ ['"', ':', ' '], rest)
+    | _ => none
+  | _ => none
+
+/-- the matcher of the pattern before the repair: the "string" ends at the first quote, escaped or not -/
+def tryMatchOld (s : List Char) : Option (List Char × List Char) :=
+  match s.dropWhile isSpace with
+  | '"' :: r =>
     match r.dropWhile (· ≠ '"') with
-    | '"' :: ':' :: ' ' :: ' ' :: rest => some (ws ++ '"' :: k ++ ['"', ':', ' '], rest)
+    | '"' :: ':' :: ' ' :: ' ' :: rest => some (s.takeWhile isSpace ++ '"' :: r.takeWhile (· ≠ '"') ++ ['"', ':', ' '], rest)
     | _ => none
   | _ => none
 
 /-- scan left to right; `bol` says whether the head is at the beginning of a line -/
-def cleanF : Nat → Bool → List Char → List Char
+def cleanWith (m : List Char → Option (List Char × List Char)) : Nat → Bool → List Char → List Char
   | 0, _, s => s
   | _, _, [] => []
   | fuel + 1, bol, c :: cs =>
-    match (if bol then tryMatch (c :: cs) else none) with
-    | some (kept, rest) =>
-      -- the scan resumes after the match; it is at a line start only if the match ended a line,
-      -- which it cannot (it ends with a space)
-      kept ++ cleanF fuel false rest
-    | none => c :: cleanF fuel (c = '\n') cs
+    match (if bol then m (c :: cs) else none) with
+    | some (kept, rest) => kept ++ cleanWith m fuel false rest
+    | none => c :: cleanWith m fuel (c = '\n') cs
 
-def clean (s : String) : String := String.ofList (cleanF (s.length + 1) true s.toList)
+def cleanL (s : List Char) : List Char := cleanWith tryMatch (s.length + 1) true s
+def cleanOldL (s : List Char) : List Char := cleanWith tryMatchOld (s.length + 1) true s
+
+def clean (s : String) : String := String.ofList (cleanL s.toList)
 
 end SyslModel.JsonClean
